@@ -686,6 +686,14 @@ def c18(rec):
         if not any(e["broken"] for e in rec.execs) and rec.fut:
             out.append(dict(signature=f"C18:init-failure-not-broken|cause={c}",
                             msg="the initializer failed but the pool was not flagged broken"))
+    if init == "fail3" and not v:
+        for o in rec.ops:
+            if o["op"][0] == "probe" and o.get("value") and not o["value"]["broken"] \
+                    and sum(1 for ev in rec.log if ev[0] == "init") >= 3:
+                out.append(dict(signature=f"C18:late-init-failure-not-broken|cause={c}",
+                                msg="the initializer failed in a worker added later (resize) and "
+                                    "everything came to rest, yet the pool is not flagged broken: "
+                                    "it would be handed out again with a dead worker"))
     if init and any(ev[0] == "init" and ev[2] != "I" and ev[2] != "I2" for ev in rec.log):
         out.append(dict(signature=f"C18:initargs-wrong|cause={c}", msg=f"{rec.log[:6]}"))
     return out, _cls(rec) + (len(inited),)
